@@ -43,7 +43,9 @@ var preconds = []precond{
 
 type Signer struct {
 	X       *Extractor
+	ctx     []*RF // facts of the calling context (hold at every point of a bound helper)
 	facts   []*RF // conditions known true at the program point
+	chain   int   // depth of fact chaining in sign()
 	assumed map[AtomID]bool
 	Used    map[string]bool // preconditions used
 	depth   int
@@ -72,7 +74,7 @@ func (g *Signer) addFact(c *RF) {
 }
 
 func (g *Signer) with(c *RF) *Signer {
-	h := &Signer{X: g.X, facts: append([]*RF{}, g.facts...), assumed: g.assumed, Used: g.Used, depth: g.depth}
+	h := &Signer{X: g.X, ctx: g.ctx, facts: append([]*RF{}, g.facts...), assumed: g.assumed, Used: g.Used, depth: g.depth}
 	h.addFact(c)
 	return h
 }
@@ -150,17 +152,61 @@ func (g *Signer) factBounds() (ge []*RF, gt []*RF) {
 	return
 }
 
-func (g *Signer) NonNeg(r *RF) bool { return g.sign(r, false) }
-func (g *Signer) Pos(r *RF) bool    { return g.sign(r, true) }
+func (g *Signer) NonNeg(r *RF) bool { return g.top(r, false) }
+func (g *Signer) Pos(r *RF) bool    { return g.top(r, true) }
+
+// top: a top-level query gets a fresh step budget (nested queries share it).
+func (g *Signer) top(r *RF, strict bool) bool {
+	if g.X.signActive {
+		return g.sign(r, strict)
+	}
+	g.X.signActive = true
+	g.X.signSteps, g.X.signLimit = 0, 3000
+	defer func() { g.X.signActive = false }()
+	return g.sign(r, strict)
+}
 
 func (g *Signer) sign(r *RF, strict bool) bool {
-	if g.depth > 12 {
+	// bounded search: undecided (false) when the budget is spent
+	g.X.signSteps++
+	if g.depth > 12 || g.X.signSteps > g.X.signLimit {
 		return false
 	}
 	g.depth++
 	defer func() { g.depth-- }()
 	if g.direct(r, strict) {
 		return true
+	}
+	// r = v * r' for an atom v common to every term of the numerator
+	// (denominator a positive constant): signs multiply
+	if c, isC := r.D.isConst(); isC && c.Sign() > 0 && len(r.N.terms) > 1 {
+		var firstT *term
+		for _, t := range r.N.terms {
+			firstT = t
+			break
+		}
+		for _, v := range firstT.vars {
+			common := true
+			for _, t := range r.N.terms {
+				has := false
+				for i, tv := range t.vars {
+					if tv == v && t.exps[i] >= 1 {
+						has = true
+					}
+				}
+				if !has {
+					common = false
+					break
+				}
+			}
+			if !common {
+				continue
+			}
+			rest := r.Div(g.X.S.atomRF(v))
+			if rest != nil && g.atomSign(v, strict) && g.sign(rest, strict) {
+				return true
+			}
+		}
 	}
 	ge, gt := g.factBounds()
 	// r = f + (something non-negative) for a fact-derived bound f
@@ -180,6 +226,29 @@ func (g *Signer) sign(r *RF, strict bool) bool {
 			if g.direct(r.Sub(f), true) {
 				return true
 			}
+		}
+	}
+	// r = f1 + f2 + (something non-negative): chains of two facts
+	if g.chain < 1 {
+		g.chain++
+		ok := false
+		for _, f := range gt {
+			if g.sign(r.Sub(f), false) {
+				ok = true
+				break
+			}
+		}
+		if !ok {
+			for _, f := range ge {
+				if g.sign(r.Sub(f), strict) {
+					ok = true
+					break
+				}
+			}
+		}
+		g.chain--
+		if ok {
+			return true
 		}
 	}
 	// r = c*f for positive constant c
@@ -318,6 +387,10 @@ func (g *Signer) atomSign(id AtomID, strict bool) bool {
 		for i, v := range vals {
 			h := pfc.SignerAt(preds[i].Instrs[len(preds[i].Instrs)-1])
 			h.assumed, h.Used, h.depth = g.assumed, g.Used, g.depth
+			h.ctx = g.ctx
+			for _, f := range g.ctx {
+				h.addFact(f)
+			}
 			// the edge condition from pred into the header
 			h.addFact(pfc.edgeCond(preds[i], p.Block()))
 			if !h.sign(pfc.Val(v), strict) {
@@ -394,6 +467,7 @@ func (x *Extractor) dfloorFC(fc *FC, extra []*RF) []floorSite {
 	var out []floorSite
 	signerAt := func(in ssa.Instruction) *Signer {
 		g := fc.SignerAt(in)
+		g.ctx = extra
 		for _, f := range extra {
 			g.addFact(f)
 		}
